@@ -80,24 +80,7 @@ def check_thinning(repo, chk):
         chk.violation("T-thin", fn.key, "apply", "the thinning mask is not applied to the merged earlier sample", file=GEN, line=blk.body[idx_mask].lineno)
     if not raised:
         chk.violation("T-thin", fn.key, "raise", "after thinning the bound is not raised to at least the new maximum weight: `%s`" % norm_text(max_expr), file=GEN, line=blk.body[idx_max].lineno)
-    # single_sampling2: accept with rnd * bound < weight, bound >= max weight of the batch
-    s2 = repo.fn(GEN + "::single_sampling2")
-    cuts = [n for n in walk_local(s2.node) if isinstance(n, ast.Assign) and norm_text(n.targets[0]) == "cut"]
-    ok2 = False
-    if cuts and isinstance(cuts[0].value, ast.Compare) and len(cuts[0].value.ops) == 1:
-        ce = cuts[0].value
-        w = sp.Symbol("weight", positive=True)
-        env = {"rnd": rnd, "max_weight": old, "weight": w, "new_max_weight": new}
-        try:
-            l = sp.sympify(Translator(None).eval(ce.left, env, s2.mod, 0))
-            r = sp.sympify(Translator(None).eval(ce.comparators[0], env, s2.mod, 0))
-            ratio = l / r if isinstance(ce.ops[0], (ast.Lt, ast.LtE)) else (r / l if isinstance(ce.ops[0], (ast.Gt, ast.GtE)) else None)
-            ok2 = ratio is not None and bool(equal(ratio, rnd * old / w)[0])
-        except (Unmodelled, AttributeError):
-            ok2 = False
-    chk.instance("T-thin", "single_sampling2 accepts with rnd * bound < weight: %s" % ok2)
-    if not ok2:
-        chk.violation("T-thin", s2.key, "accept", "acceptance test is not rnd * max_weight < weight: `%s`" % (norm_text(cuts[0].value) if cuts else "missing"), file=GEN, line=s2.lineno)
+    # the acceptance kernel single_sampling2 is decided by check_accept_bound (symbolic evaluation of all paths)
 
 
 def check_accept_bound(repo, chk):
